@@ -130,6 +130,21 @@ func main() {
 			replace[filepath.Join(*repo, "verifmc", v, filepath.Base(f))] = f
 		}
 	}
+	// static access-site table for the race detector
+	{
+		var sb strings.Builder
+		sb.WriteString("package mc\n\nfunc init() {\n\tSiteNames = []string{\n")
+		for _, n := range siteNames {
+			sb.WriteString("\t\t" + strconv.Quote(n) + ",\n")
+		}
+		sb.WriteString("\t}\n}\n")
+		gen := filepath.Join(*out, "sites_gen.go")
+		if err := os.WriteFile(gen, []byte(sb.String()), 0o644); err != nil {
+			fmt.Fprintln(os.Stderr, err)
+			os.Exit(2)
+		}
+		replace[filepath.Join(*repo, "verifmc", "mc", "sites_gen.go")] = gen
+	}
 	// extra observer files
 	if *extra != "" {
 		filepath.Walk(*extra, func(path string, fi os.FileInfo, err error) error {
@@ -151,6 +166,19 @@ func main() {
 		fmt.Fprintln(os.Stderr, "instr: unsupported constructs:", unsupported)
 		os.Exit(3)
 	}
+}
+
+var siteNames = []string{"?"}
+
+// site allocates a static site id for the source position of n.
+func (fc *fileCtx) site(n ast.Node) ast.Expr {
+	p := fc.fset.Position(n.Pos())
+	rel, err := filepath.Rel(*repo, p.Filename)
+	if err != nil {
+		rel = p.Filename
+	}
+	siteNames = append(siteNames, fmt.Sprintf("%s:%d", rel, p.Line))
+	return &ast.BasicLit{Kind: token.INT, Value: strconv.Itoa(len(siteNames) - 1)}
 }
 
 func (fc *fileCtx) tmp(prefix string) *ast.Ident {
